@@ -38,8 +38,8 @@ func (m MsgSimAward) ValidateBasic() sdk.Error {
 	if m.From.Empty() || m.To.Empty() {
 		return sdk.ErrInvalidAddress("empty address")
 	}
-	if !m.Amount.IsPositive() {
-		return sdk.ErrInvalidCoins("award must be positive")
+	if m.Amount.IsNegative() {
+		return sdk.ErrInvalidCoins("award must not be negative")
 	}
 	return nil
 }
